@@ -20,8 +20,9 @@ import (
 
 // retCase: one handler returning values of one supported shape, somewhere in a chain (C14).
 type retCase struct {
-	Env      string `json:"env,omitempty"`                          // process environment while the case runs (the runner sets it per phase): the table does not depend on it
-	Battery  bool   `json:"built_in_middleware_in_front,omitempty"` // Logger, Recovery and Renderer are installed ahead of everything: a returned value is rendered by the same table
+	Env      string `json:"env,omitempty"`                             // process environment while the case runs (the runner sets it per phase): the table does not depend on it
+	AsAction bool   `json:"returning_handler_is_the_action,omitempty"` // the returning handler is installed with Flame.Action (the tail of every chain) instead of as the route's last-but-one handler: what it returns is rendered by the same table
+	Battery  bool   `json:"built_in_middleware_in_front,omitempty"`    // Logger, Recovery and Renderer are installed ahead of everything: a returned value is rendered by the same table
 	Shape    string `json:"shape"`
 	Int      int    `json:"int,omitempty"`
 	Str      core.B `json:"str,omitempty"`
@@ -67,6 +68,9 @@ type c14Named string
 
 // String-kind and byte-slice-kind result types that also know how to present themselves. What a handler returns
 // is its value; how the type would print itself is nobody's business here.
+// c14Status: a named integer type (the way applications name their status codes). An integer by kind.
+type c14Status int
+
 type c14Secret string
 
 func (c14Secret) String() string   { return "Secret(REDACTED)" }
@@ -112,7 +116,7 @@ type c14Err struct{ msg string }
 
 func (e *c14Err) Error() string { return e.msg }
 
-var retShapes = []string{"string", "bytes", "error", "int,string", "int,bytes", "int,error", "string,error", "bytes,error", "*string", "named", "iface", "*bytes", "namedbytes", "int,namedbytes", "valerr", "int,valerr", "string,valerr", "iface-err", "int,iface-err", "int,iface", "int,string,int", "bool", "struct", "digits", "int,digits", "*digits", "digits,error", "stringer", "int,stringer", "formatter", "stringer,error", "bytes-stringer"}
+var retShapes = []string{"string", "bytes", "error", "int,string", "int,bytes", "int,error", "string,error", "bytes,error", "*string", "named", "iface", "*bytes", "namedbytes", "int,namedbytes", "valerr", "int,valerr", "string,valerr", "iface-err", "int,iface-err", "int,iface", "int,string,int", "bool", "struct", "digits", "int,digits", "*digits", "digits,error", "stringer", "int,stringer", "formatter", "stringer,error", "bytes-stringer", "nstatus,string", "nstatus,bytes", "nstatus,error"}
 
 var (
 	tString = reflect.TypeOf("")
@@ -222,6 +226,12 @@ func (c *retCase) outs() ([]reflect.Type, []reflect.Value) {
 		return []reflect.Type{tString}, []reflect.Value{c.strish(tString)}
 	case "named":
 		return []reflect.Type{tNamed}, []reflect.Value{c.strish(tNamed)}
+	case "nstatus,string":
+		return []reflect.Type{reflect.TypeOf(c14Status(0)), tString}, []reflect.Value{reflect.ValueOf(c14Status(c.Int)), c.strish(tString)}
+	case "nstatus,bytes":
+		return []reflect.Type{reflect.TypeOf(c14Status(0)), tBytes}, []reflect.Value{reflect.ValueOf(c14Status(c.Int)), c.strish(tBytes)}
+	case "nstatus,error":
+		return []reflect.Type{reflect.TypeOf(c14Status(0)), tError}, []reflect.Value{reflect.ValueOf(c14Status(c.Int)), c.errValue()}
 	case "stringer":
 		return []reflect.Type{reflect.TypeOf(c14Secret(""))}, []reflect.Value{reflect.ValueOf(c14Secret(c.Str))}
 	case "int,stringer":
@@ -329,9 +339,9 @@ func retTable(c *retCase) (int, string, bool) {
 			return 0, "", false
 		}
 		return 500, c.errText(), true
-	case "int,string", "int,bytes", "int,namedbytes":
+	case "int,string", "int,bytes", "int,namedbytes", "nstatus,string", "nstatus,bytes":
 		return c.Int, body, true
-	case "int,error":
+	case "int,error", "nstatus,error":
 		if c.Err == "" {
 			return c.Int, "", true
 		}
@@ -353,7 +363,7 @@ func (c *retCase) outOfTable() bool {
 // isNil: the Nil flag only means something for shapes with a nil-able string-ish value.
 func (c *retCase) isNil() bool {
 	switch c.Shape {
-	case "bytes", "*string", "*bytes", "iface", "int,bytes", "bytes,error", "namedbytes", "int,namedbytes", "int,iface":
+	case "bytes", "*string", "*bytes", "iface", "int,bytes", "bytes,error", "namedbytes", "int,namedbytes", "int,iface", "nstatus,bytes":
 		return c.Nil
 	}
 	return false
@@ -577,7 +587,13 @@ func judgeRet(w *core.W, c *retCase) {
 		hs = append(hs, func(ctx flamego.Context) { ctx.Map(custom) })
 	}
 	marker := 0
-	hs = append(hs, h, func() { marker++ })
+	if c.AsAction {
+		hs = append(hs, func() {})
+		f.Action(h)
+		w.Count("returning-handler-is-the-action")
+	} else {
+		hs = append(hs, h, func() { marker++ })
+	}
 	meth := c.Method
 	if meth == "" {
 		meth = "GET"
@@ -589,6 +605,9 @@ func judgeRet(w *core.W, c *retCase) {
 		defer func() { pan = recover() }()
 		f.ServeHTTP(spy, (&http.Request{Method: meth, URL: &url.URL{Path: "/r"}, Header: http.Header{}}).WithContext(reqCtx))
 	}()
+	if c.AsAction && spy.status == 0 && !c.Cancel {
+		marker = 1 // nothing follows the action: a chain that ran to its end without an answer has "continued"
+	}
 	fast := !c.Reflect && c.In == "" && c.Shape == "int,string"
 	path := "reflective"
 	if fast {
@@ -746,6 +765,7 @@ func runC14(r *core.Run) {
 		r.Parallel("ret-"+env, n/3, func(w *core.W, rng *rand.Rand, i int) {
 			c := genRetCase(rng)
 			c.Env, c.Battery = env, rng.Intn(3) == 0
+			c.AsAction = rng.Intn(8) == 0 && c.Custom != "request-late" && c.Custom != "self"
 			w.Begin("ret", c)
 			judgeRet(w, c)
 		})
